@@ -1,10 +1,250 @@
-//! C19 — not built yet.
+//! C19 RTR listener keeps accepting after a failed connection setup.
+//!
+//! A real `rtr_listener` (in-process, own tokio runtime, one installed data set) is contacted by a
+//! generated sequence of plain-TCP RTR clients, one after the other. Faults: (hook) a generated
+//! subset of accepted connections fails its setup via `verif::set_fail_rtr_setup`; (natural) a
+//! `rtr-tcp-keepalive` value the kernel rejects, which makes the setup of *every* connection fail.
+//! Oracle: every connection whose setup is not failed gets its Reset Query answered; every connection
+//! whose setup fails is accepted and closed (the listener "continues to accept") — both within a
+//! bounded wait T, extended once to 4T, and only judged when a fault-free control listener running
+//! beside it answers promptly at that moment.
+
+use std::sync::atomic::{AtomicBool, AtomicU64, Ordering};
+use std::sync::Arc;
+use std::time::{Duration, Instant};
+
+use proptest::prelude::*;
+use serde::{Deserialize, Serialize};
 
 use crate::core::*;
+use crate::rtrnet::*;
 
-pub const IMPLEMENTED: bool = false;
+const KEY_STALL: &str = "C19/stall-after-failed-setup";
 
-pub fn run(_ctx: &Ctx, _rep: &mut Report, _replay: Option<&serde_json::Value>) {
-    eprintln!("C19: check not implemented");
-    std::process::exit(2);
+#[derive(Serialize, Deserialize, Clone, Debug)]
+pub struct Conn {
+    /// Fail the setup of this connection through the hook.
+    pub fail: bool,
+    /// RTR protocol version of the Reset Query (0..=2).
+    pub version: u8,
+}
+
+#[derive(Serialize, Deserialize, Clone, Debug)]
+pub struct Case {
+    /// `rtr-tcp-keepalive` in seconds (None = keepalive off).
+    pub keepalive: Option<u64>,
+    pub conns: Vec<Conn>,
+}
+
+static ARMED: AtomicBool = AtomicBool::new(false);
+static HOOK_CALLS: AtomicU64 = AtomicU64::new(0);
+
+fn install_hook() {
+    static ONCE: std::sync::Once = std::sync::Once::new();
+    ONCE.call_once(|| {
+        routinator::verif::set_fail_rtr_setup(Some(Arc::new(|| {
+            HOOK_CALLS.fetch_add(1, Ordering::SeqCst);
+            ARMED.swap(false, Ordering::SeqCst)
+        })));
+    });
+}
+
+/// Does this kernel accept the keepalive value? Same socket options routinator sets
+/// (SO_KEEPALIVE, TCP_KEEPIDLE, TCP_KEEPINTVL with the value clamped to u32), issued through libc.
+pub fn kernel_accepts_keepalive(secs: u64) -> bool {
+    let v: u32 = u32::try_from(secs).unwrap_or(u32::MAX);
+    unsafe {
+        let fd = libc::socket(libc::AF_INET, libc::SOCK_STREAM, 0);
+        if fd < 0 {
+            return false;
+        }
+        let one: libc::c_int = 1;
+        let mut ok = libc::setsockopt(fd, libc::SOL_SOCKET, libc::SO_KEEPALIVE, &one as *const _ as *const libc::c_void, 4) == 0;
+        ok = ok && libc::setsockopt(fd, libc::IPPROTO_TCP, libc::TCP_KEEPIDLE, &v as *const _ as *const libc::c_void, 4) == 0;
+        ok = ok && libc::setsockopt(fd, libc::IPPROTO_TCP, libc::TCP_KEEPINTVL, &v as *const _ as *const libc::c_void, 4) == 0;
+        libc::close(fd);
+        ok
+    }
+}
+
+struct Params {
+    t: Duration,
+}
+
+fn will_fail(case: &Case, i: usize, rejected: bool) -> bool {
+    rejected || case.conns[i].fail
+}
+
+/// The shape of the listed finding: some connection follows one whose setup fails.
+fn first_followed_failure(case: &Case, rejected: bool) -> Option<usize> {
+    (0..case.conns.len().saturating_sub(1)).find(|i| will_fail(case, *i, rejected))
+}
+
+fn evaluate(case: &Case, p: &Params, info: &mut CaseInfo) -> Verdict {
+    install_hook();
+    let rejected = case.keepalive.map(|s| !kernel_accepts_keepalive(s)).unwrap_or(false);
+    let n = case.conns.len();
+    let nt = first_followed_failure(case, rejected).is_some();
+    info.nt(nt);
+    info.class(match (case.keepalive, rejected) {
+        (None, _) => "keepalive=off".to_string(),
+        (Some(_), true) => "keepalive=rejected_by_kernel".to_string(),
+        (Some(_), false) => "keepalive=accepted".to_string(),
+    });
+    let nfail = (0..n).filter(|i| will_fail(case, *i, rejected)).count();
+    info.class(format!("failed_setups={}", match nfail { 0 => "0", 1 => "1", _ => "2+" }));
+    if nt {
+        info.class("connection_after_failed_setup");
+    }
+    let subject = match RtrTestServer::start(1, case.keepalive.map(Duration::from_secs), false) {
+        Ok(s) => s,
+        Err(e) => return Verdict::Dropped(format!("listener_start:{}", truncate(&e, 40))),
+    };
+    let control = match RtrTestServer::start(1, Some(Duration::from_secs(60)), false) {
+        Ok(s) => s,
+        Err(e) => return Verdict::Dropped(format!("control_start:{}", truncate(&e, 40))),
+    };
+    let lo: std::net::IpAddr = "127.0.0.1".parse().unwrap();
+    let t = p.t;
+    let control_ok = |bound: Duration| -> bool {
+        ARMED.store(false, Ordering::SeqCst);
+        control.rt.block_on(async {
+            match RtrClient::connect_from(lo, control.ports[0]).await {
+                Ok(mut c) => matches!(c.reset_query(1, bound).await, Exchange::Answered { error_code: None, .. }),
+                Err(_) => false,
+            }
+        })
+    };
+    if !control_ok(t) {
+        return Verdict::Dropped("control_slow_at_start".into());
+    }
+    let mut failed_before = false;
+    for i in 0..n {
+        let expect_fail = will_fail(case, i, rejected);
+        let calls0 = HOOK_CALLS.load(Ordering::SeqCst);
+        ARMED.store(case.conns[i].fail, Ordering::SeqCst);
+        let version = case.conns[i].version.min(2);
+        let started = Instant::now();
+        let (first, second) = subject.rt.block_on(async {
+            let mut c = match RtrClient::connect_from(lo, subject.ports[0]).await {
+                Ok(c) => c,
+                Err(e) => return (Exchange::Io(e), None),
+            };
+            let first = c.reset_query(version, t).await;
+            if first == Exchange::Timeout {
+                // a miss is re-tried once: keep waiting on the same connection up to 4T in total
+                let second = c.read_answer(t * 3).await;
+                (first, Some(second))
+            } else {
+                (first, None)
+            }
+        });
+        ARMED.store(false, Ordering::SeqCst);
+        let accepted = HOOK_CALLS.load(Ordering::SeqCst) > calls0;
+        let elapsed = started.elapsed();
+        let as_expected = |e: &Exchange| if expect_fail { *e == Exchange::Closed } else { matches!(e, Exchange::Answered { error_code: None, .. }) };
+        let what = format!(
+            "connection {} of {} (keepalive {:?}{}, setup {}): first wait {:?} -> {:?}{}; listener consulted the setup hook: {}; {} ms",
+            i + 1,
+            n,
+            case.keepalive,
+            if rejected { " = rejected by the kernel" } else { "" },
+            if expect_fail { "fails" } else { "succeeds" },
+            t,
+            first,
+            second.as_ref().map(|s| format!(", extended wait {:?} -> {:?}", t * 3, s)).unwrap_or_default(),
+            accepted,
+            elapsed.as_millis()
+        );
+        match (&first, &second) {
+            (f, None) if as_expected(f) => {}
+            (Exchange::Io(e), _) => return Verdict::Dropped(format!("client_io:{}", truncate(e, 40))),
+            (Exchange::Timeout, Some(s)) if as_expected(s) => return Verdict::Dropped("late_answer".into()),
+            (Exchange::Timeout, Some(Exchange::Timeout)) => {
+                // still nothing after 4T: judge only if the control listener is responsive right now
+                if !control_ok(t / 2) {
+                    return Verdict::Dropped("control_slow".into());
+                }
+                return if failed_before {
+                    Verdict::fail(KEY_STALL, format!("{} — neither answered nor closed although the fault-free control listener answered within {:?}; an earlier connection on this listener had a failed setup", what, t / 2))
+                } else {
+                    Verdict::fail("C19/connection-unanswered", format!("{} — neither answered nor closed although the control listener answered within {:?}", what, t / 2))
+                };
+            }
+            (f, s) => {
+                let got = s.as_ref().unwrap_or(f);
+                return if expect_fail && matches!(got, Exchange::Answered { .. }) {
+                    // the fault was not applied to this connection: harness problem, never a verdict
+                    Verdict::Dropped("fault_not_applied".into())
+                } else if !expect_fail && *got == Exchange::Closed {
+                    Verdict::fail("C19/good-connection-closed", format!("{} — closed without an answer although its setup was not failed", what))
+                } else {
+                    Verdict::fail("C19/unexpected-answer", what)
+                };
+            }
+        }
+        failed_before |= expect_fail;
+    }
+    Verdict::Pass
+}
+
+/// `fault_free_share`: share of sequences without any failed setup (accepted keepalive values, no hook
+/// fault); raised while the stall finding is listed so that the bulk search still exercises complete
+/// sequences of served connections.
+fn strategy(keepalives: Vec<Option<u64>>, accepted: Vec<Option<u64>>, fault_free_share: u32) -> impl Strategy<Value = Case> {
+    let conn = (prop::bool::weighted(0.3), 0u8..=2).prop_map(|(fail, version)| Conn { fail, version });
+    let good = (0u8..=2).prop_map(|version| Conn { fail: false, version });
+    prop_oneof![
+        (100 - fault_free_share) => (prop::sample::select(keepalives), prop::collection::vec(conn, 3..=12)).prop_map(|(keepalive, conns)| Case { keepalive, conns }),
+        fault_free_share => (prop::sample::select(accepted), prop::collection::vec(good, 3..=12)).prop_map(|(keepalive, conns)| Case { keepalive, conns }),
+    ]
+}
+
+pub fn run(ctx: &Ctx, rep: &mut Report, replay: Option<&serde_json::Value>) {
+    let t = Duration::from_millis(ctx.tier.pick(1000, 3000));
+    let p = Params { t };
+    rep.rule("sequences of 3-12 sequential RTR client connections (Reset Query, versions 0-2) to a real in-process rtr_listener; a generated subset of connections has its setup failed through the verif hook, or the configured rtr-tcp-keepalive (off, 1, 60, 7200, 32767, 32768, 100000, 2^32-1, 2^32, 2^64-1) is one the kernel rejects so that every setup fails; whether the kernel accepts a value is probed with the same socket options; non-trivial = some connection follows one whose setup failed; distinct by serialised case");
+    rep.assume(format!("bounded-wait liveness: a connection that is neither answered nor closed within {:?} (4 x T) while a fault-free control listener in the same process answers within {:?} counts as not served; slower cases are dropped, not judged", t * 4, t / 2));
+    rep.assume("connections are made one after the other, so the hook's decision applies to exactly the connection just opened; this is confirmed per connection (an answered connection that should have failed is dropped as fault_not_applied)");
+    if let Some(v) = replay {
+        let tg: Tagged<Case> = serde_json::from_value(v.clone()).expect("replay");
+        run_case(ctx, rep, "seq", &tg.case, |c, i| evaluate(c, &p, i));
+        return;
+    }
+    let keepalives: Vec<Option<u64>> = vec![None, Some(1), Some(60), Some(7200), Some(32767), Some(32768), Some(100000), Some(u32::MAX as u64), Some(1 << 32), Some(u64::MAX)];
+    let probe: Vec<_> = keepalives.iter().flatten().map(|s| (s.to_string(), kernel_accepts_keepalive(*s))).collect();
+    rep.extra.insert("kernel_keepalive_probe".into(), serde_json::json!(probe));
+    let exclude = !ctx.strict && ctx.known_key(KEY_STALL).is_some();
+    let excluded = std::cell::Cell::new(0u64);
+    let accepted: Vec<Option<u64>> = keepalives.iter().copied().filter(|k| k.map(kernel_accepts_keepalive).unwrap_or(true)).collect();
+    run_prop(ctx, rep, "seq", ctx.tier.pick(150, 2500), strategy(keepalives, accepted, if exclude { 60 } else { 10 }), |case, info| {
+        let rejected = case.keepalive.map(|s| !kernel_accepts_keepalive(s)).unwrap_or(false);
+        match first_followed_failure(case, rejected) {
+            Some(i) if exclude => {
+                // Listed finding: every later connection stalls after the first failed setup. The shape
+                // "a connection follows a failed setup" is excluded by construction: the sequence is cut
+                // after its first failing connection (the failing setup itself is still exercised).
+                excluded.set(excluded.get() + 1);
+                let cut = Case { keepalive: case.keepalive, conns: case.conns[..=i].to_vec() };
+                info.class("cut_after_first_failed_setup");
+                evaluate(&cut, &p, info)
+            }
+            _ => evaluate(case, &p, info),
+        }
+    });
+    for _ in 0..excluded.get() {
+        rep.exclude_known(KEY_STALL);
+    }
+    if rep.violated() {
+        return;
+    }
+    // directed representatives of the listed shape, every run
+    let c = |keepalive: Option<u64>, conns: &[(bool, u8)]| Case { keepalive, conns: conns.iter().map(|(fail, version)| Conn { fail: *fail, version: *version }).collect() };
+    for case in [
+        c(Some(60), &[(true, 1), (false, 1), (false, 2)]),
+        c(None, &[(false, 0), (true, 1), (false, 1)]),
+        c(Some(100000), &[(false, 1), (false, 1), (false, 2)]),
+    ] {
+        run_case(ctx, rep, "seq", &case, |c, i| evaluate(c, &p, i));
+    }
 }
